@@ -1,3 +1,4 @@
 import ModbusProofs.Properties.C01
 import ModbusProofs.Properties.C03
+import ModbusProofs.Properties.C09
 import ModbusProofs.Properties.C10
